@@ -39,6 +39,7 @@ ASSUMPTIONS = [
     "statistical correctness of long chains is deliberately not used as a verdict (implied by the per-transition identities)",
 ]
 BUDGET = {"quick": 85, "thorough": 900}
+ROUNDS = {"thorough": 3}
 FLOORS = {"transitions": {"quick": 4000, "thorough": 40000}, "accepted": {"quick": 800, "thorough": 8000}, "rejected": {"quick": 800, "thorough": 8000},
           "hastings_checked": {"quick": 3000, "thorough": 30000}, "logger_rows": {"quick": 2000, "thorough": 20000}, "tune_calls": {"quick": 1500, "thorough": 15000},
           "operator_types": 5, "hook_records": {"quick": 4000, "thorough": 40000},
